@@ -716,3 +716,284 @@ CATALOGUE['C02'] = [
     V('silent: keyword form of the flag', 'DT_Util.py',
       "d[name] = md.getitem(name, 0)", "d[name] = md.getitem(name, call=0)"),
 ]
+
+# --------------------------------------------------------------------- C05
+CATALOGUE['C05'] = [
+    V('InstanceDict uses plain getattr', '_DocumentTemplate.py',
+      """        get = self.guarded_getattr
+        if get is None:
+            get = getattr
+""",
+      """        get = getattr
+""", 'C05.R1'),
+    V('careful_getattr fallback unconditional', 'DT_Util.py',
+      """def careful_getattr(md, inst, name, default=_marker):
+
+    get = md.guarded_getattr
+    if get is None:
+        get = getattr""",
+      """def careful_getattr(md, inst, name, default=_marker):
+
+    get = md.guarded_getattr
+    if get is not None:
+        get = getattr""", 'C05.R1'),
+    V('method formats read with plain getattr', 'DT_Var.py',
+      """                if hasattr(val, fmt):
+                    wastainted = isinstance(val, TaintedString)
+                    val = _get(val, fmt)()""",
+      """                if hasattr(val, fmt):
+                    wastainted = isinstance(val, TaintedString)
+                    val = getattr(val, fmt)()""", 'C05.R1'),
+    V('new per-item variable read by name', 'DT_InSV.py',
+      """    def roman(self, index):""",
+      """    def attr_of(self, index, name):
+        return getattr(self.data['sequence-item'], name)
+
+    def roman(self, index):""", 'C05.R1'),
+    V('tree branches read unguarded', 'TreeTag.py',
+      """            items = get(self, args['branches'])
+            items = items()""",
+      """            items = getattr(self, args['branches'])
+            items = items()""", 'C05.R1'),
+    V('in: item read unconditionally plain', 'DT_In.py',
+      """            for index in range(l_):
+                if index == last:
+                    pkw['sequence-end'] = 1
+                if guarded_getitem is not None:""",
+      """            for index in range(l_):
+                if index == last:
+                    pkw['sequence-end'] = 1
+                client = sequence[index]
+                if guarded_getitem is not None:""", 'C05.R2'),
+    V('in: guard test inverted', 'DT_In.py',
+      """                    if guarded_getitem is not None:
+                        try:
+                            client = guarded_getitem(sequence, index)
+                        except ValidationError as vv:
+                            if 'skip_unauthorized' in params and \\""",
+      """                    if guarded_getitem is None:
+                        try:
+                            client = guarded_getitem(sequence, index)
+                        except ValidationError as vv:
+                            if 'skip_unauthorized' in params and \\""",
+      'C05.R2'),
+    V('tree: validation pass dropped', 'TreeTag.py',
+      """                try:
+                    getitem(items, index)
+                except ValidationError:
+                    unauth.append(index)""",
+      """                pass""", 'C05.R2'),
+    V('underscore test after the read', '_DocumentTemplate.py',
+      """        if key[0] == '_':
+            if key != '__str__':
+                raise KeyError(key)  # Don't divulge private data
+            else:
+                return str(self.inst)
+
+        get = self.guarded_getattr
+        if get is None:
+            get = getattr
+
+        try:
+            result = get(self.inst, key)
+        except AttributeError:
+            raise KeyError(key)
+""",
+      """        get = self.guarded_getattr
+        if get is None:
+            get = getattr
+
+        try:
+            result = get(self.inst, key)
+        except AttributeError:
+            raise KeyError(key)
+
+        if key[0] == '_':
+            if key != '__str__':
+                raise KeyError(key)  # Don't divulge private data
+            else:
+                return str(self.inst)
+""", 'C05.R3'),
+    V('underscore test dropped', '_DocumentTemplate.py',
+      """        if key[0] == '_':
+            if key != '__str__':
+                raise KeyError(key)  # Don't divulge private data
+            else:
+                return str(self.inst)
+""", "", 'C05.R3'),
+    V('underscore branch answers private data', '_DocumentTemplate.py',
+      """            if key != '__str__':
+                raise KeyError(key)  # Don't divulge private data
+            else:
+                return str(self.inst)""",
+      """            if key != '__str__':
+                raise KeyError(key)  # Don't divulge private data
+            else:
+                return getattr(self.inst, key)()""", 'C05.R3'),
+    V('_getattr_ bound to plain getattr', 'DT_Util.py',
+      "                 '_getattr_': gattr,",
+      "                 '_getattr_': getattr,", 'C05.R4'),
+    V('unrestricted code under a guard', 'DT_Util.py',
+      """            self.prepRestrictedCode()
+            code = self.rcode""",
+      """            self.prepUnrestrictedCode()
+            code = self.ucode""", 'C05.R4'),
+    V('builtins available', 'DT_Util.py',
+      "                 '__builtins__': None}", "                 }",
+      'C05.R4'),
+    V('with only: getitem guard forgotten', 'DT_With.py',
+      """            if hasattr(_md, 'guarded_getitem'):
+                md.guarded_getitem = _md.guarded_getitem
+""", "", 'C05.R5'),
+    V('call: getattr guard not installed', 'DT_String.py',
+      "            md.guarded_getattr = self.guarded_getattr\n", "",
+      'C05.R5'),
+    # silent
+    V('silent: rename idiom local', 'DT_Util.py',
+      """    get = md.guarded_getattr
+    if get is None:
+        get = getattr
+    try:
+        return get(inst, name)""",
+      """    getter = md.guarded_getattr
+    if getter is None:
+        getter = getattr
+    try:
+        return getter(inst, name)"""),
+    V('silent: literal-name read added', 'TreeTag.py',
+      "    elif getattr(item, '_p_oid', None):",
+      "    elif getattr(item, '_p_oid', None) and getattr(item, '_p_jar', 1):"),
+]
+
+# --------------------------------------------------------------------- C12
+CATALOGUE['C12'] = [
+    V('emptiness by truth test', 'DT_In.py',
+      """        try:
+            sequence[0]
+        except IndexError:
+            if self.elses:
+                return render_blocks(self.elses, md, encoding=self.encoding)
+            return ''
+
+        section = self.section
+        params = self.args
+""",
+      """        if not sequence:
+            if self.elses:
+                return render_blocks(self.elses, md, encoding=self.encoding)
+            return ''
+
+        section = self.section
+        params = self.args
+""", 'C12.R1'),
+    V('length computed in renderwb', 'DT_In.py',
+      """        last = end - 1
+        first = start - 1
+""",
+      """        last = min(end, len(sequence)) - 1
+        first = start - 1
+""", 'C12.R1'),
+    V('opt clamps with len eagerly', 'DT_InSV.py',
+      """    else:
+        start = 1
+        end = start + size - 1
+        try:
+            sequence[end + orphan - 1]
+        except Exception:
+            end = len(sequence)
+    return (start, end, size)""",
+      """    else:
+        start = 1
+        end = min(start + size - 1, len(sequence))
+    return (start, end, size)""", 'C12.R1'),
+    V('sequence copied to a list', 'DT_In.py',
+      """            sequence = sequence_ensure_subscription(md[name])
+            cache = {name: sequence}
+        else:
+            sequence = sequence_ensure_subscription(expr(md))
+            cache = None
+
+        if isinstance(sequence, str):
+            raise ValueError(
+                'Strings are not allowed as input to the in tag.')
+
+        # below we do not use ``not sequence`` because the
+        # implied ``__len__`` is expensive for some (lazy) sequences
+        # if not sequence:
+        try:
+            sequence[0]
+        except IndexError:
+            if self.elses:
+                return render_blocks(self.elses, md, encoding=self.encoding)
+            return ''
+
+        section = self.section
+        params = self.args""",
+      """            sequence = sequence_ensure_subscription(md[name])
+            cache = {name: sequence}
+        else:
+            sequence = sequence_ensure_subscription(expr(md))
+            cache = None
+
+        if isinstance(sequence, str):
+            raise ValueError(
+                'Strings are not allowed as input to the in tag.')
+        sequence = list(sequence)
+
+        # below we do not use ``not sequence`` because the
+        # implied ``__len__`` is expensive for some (lazy) sequences
+        # if not sequence:
+        try:
+            sequence[0]
+        except IndexError:
+            if self.elses:
+                return render_blocks(self.elses, md, encoding=self.encoding)
+            return ''
+
+        section = self.section
+        params = self.args""", 'C12.R1'),
+    V('more-items probe by slice', 'DT_In.py',
+      """                    # computing a length:
+                    sequence[end]
+                except IndexError:""",
+      """                    # computing a length:
+                    sequence[end:][0]
+                except IndexError:""", 'C12.R1'),
+    V('sequence_variables measures its items', 'DT_InSV.py',
+      """        self.items = items
+        self.query_string = query_string""",
+      """        self.items = items
+        self.n = len(items) if items is not None else 0
+        self.query_string = query_string""", 'C12.R1'),
+    V('ensure_subscription materialises', 'DT_Util.py',
+      "    return SequenceFromIter(iter(obj))", "    return list(obj)",
+      'C12.R2'),
+    V('len pulls directly', 'DT_Util.py',
+      """        while not self.finished:
+            try:
+                self[len(self.data)]
+            except IndexError:
+                pass
+        return len(self.data)""",
+      """        self.data.extend(self.it)
+        self.finished = True
+        return len(self.data)""", 'C12.R2'),
+    V('negative index not refused', 'DT_Util.py',
+      """        if idx < 0:
+            raise IndexError(f"negative indexes are not supported {idx}")
+""", "", 'C12.R2'),
+    V('getitem drains the iterator', 'DT_Util.py',
+      "while not self.finished and idx >= len(self.data):",
+      "while not self.finished:", 'C12.R2'),
+    # silent
+    V('silent: rename sequence alias in previous_batches', 'DT_InSV.py',
+      """        data = self.data
+        sequence = self.items
+        try:
+            if not data['previous-sequence']:""",
+      """        data = self.data
+        seq = self.items
+        sequence = seq
+        try:
+            if not data['previous-sequence']:"""),
+]
